@@ -57,6 +57,7 @@ CONSTANTS
   NB = 256
   CL = 232
   KeyBits <- TraceKeyBits
+  KeyPre <- TraceKeyPre
   AllKeys <- TraceAllKeys
 INVARIANT Report
 POSTCONDITION Accepted
@@ -416,7 +417,7 @@ CONSTANTS
   NB = 8
   CL = 4
   AllKeys <- U
-  KeyBits <- Bits8
+  KeyBits <- Bits8T
 INVARIANT Complete
 INVARIANT SearchTLemma
 INVARIANT HyperMapSane
@@ -425,6 +426,32 @@ INVARIANT Sound
 CHECK_DEADLOCK FALSE
 """
 mc_balloon = mc_stage("MC_Balloon", MCB_CFG, quick={"MaxLen": 2}, thorough={"MaxLen": 3}, timeout=6000)
+
+MCH_CFG = """SPECIFICATION Spec
+CONSTANTS
+  MaxLen = @MaxLen@
+  MaxBulk = 3
+  NB = 8
+  CL = 4
+  AllKeys <- U
+  KeyBits <- Bits8T
+INVARIANT TrieIsCanonicalRoot
+INVARIANT TrieSearchIsSearch
+INVARIANT TrieCounts
+CHECK_DEADLOCK FALSE
+"""
+mc_hyper = mc_stage("MC_Hyper", MCH_CFG, quick={"MaxLen": 4}, thorough={"MaxLen": 5}, timeout=3000)
+
+BIG_CFG = BALLOON_CFG.replace("SPECIFICATION Spec", "SPECIFICATION BSpec")
+
+
+def balloonbig_tv(nq, nt):
+    def stage(ctx):
+        """Real Balloon over RocksDB at scale (>1000 hyper cache tiles, reopen on / next to the page boundaries of the cache
+        warm-up) -> traces -> Trace_BalloonBig.tla (incremental hyper tree, shown canonical by MC_Hyper)"""
+        trace_files_stage(ctx, "balloonbig", "big", ctx.pick(nq, nt), module="Trace_BalloonBig", cfg=BIG_CFG, spec="BSpec")
+    return stage
+
 
 RULE_ADV = ("MC: 8-bit universe (7 keys, prefixes 0..7 bits), every insertion sequence up to MaxLen with bulks, every candidate "
             "answer with up to two edits (all field combinations x key / dropped entry; every entry replaced by every known digest; "
@@ -473,7 +500,7 @@ PLANS = {
     "C01": plan("model_checking", [mc_history, balloon_tv_stage], RULE_BALLOON),
     "C02": plan("model_checking", [mc_balloon, adversary_tv_stage], RULE_ADV),
     "C03": plan("model_checking", [mc_history, balloon_tv_stage], RULE_BALLOON),
-    "C04": plan("model_checking", [mc_history, balloon_tv_stage], RULE_BALLOON),
+    "C04": plan("model_checking", [mc_history, mc_hyper, balloon_tv_stage, thorough_only(balloonbig_tv(2, 4))], RULE_BALLOON),
     "C13": plan("model_checking", [mc_balloon, balloon_tv(5, 12), wire_tv_stage, cluster_tv("replicas", 1, 4)],
                 "MC: WireFaithful on the 8-bit universe (every log up to MaxLen, every digest, every query version incl. beyond current, every "
                 "snapshot pair: in-process verdict = verdict of the decoded public form). TV: every membership / consistency proof of the balloon "
@@ -490,8 +517,11 @@ PLANS = {
                 "RaftNode SIGKILLs itself immediately before / after the i-th store write (every i of the workload, both sides, with and "
                 "without a prior raft snapshot), is restarted on the same directories, replays its raft log, finishes the workload and "
                 "answers membership queries for every event; non-trivial = each (workload, crash write, side) experiment"),
-    "C08": plan("model_checking", [mc_cluster, crash_tv("stop", 6, 16), balloon_tv(4, 12)], RULE_CLUSTER + "; clean stop + reopen of a child-process "
-                "node at every prefix length (exit status checked) and close/reopen of the balloon at random points on RocksDB"),
+    "C08": plan("model_checking", [mc_cluster, mc_hyper, crash_tv("stop", 6, 16), balloon_tv(4, 12), balloonbig_tv(2, 8)], RULE_CLUSTER + "; clean stop + reopen of a child-process "
+                "node at every prefix length (exit status checked) and close/reopen of the balloon at random points on RocksDB; scale scenario: "
+                "a balloon of 1000..3900 events (one hyper cache tile per event) reopened with 999 / 1000 / 1001 / mid-page / multi-page tile counts "
+                "(the cache warm-up reads 1000 tiles per page), then inserted into and queried; MC_Hyper: the incremental hyper tree used for these "
+                "traces is the canonical one for every insertion sequence of a 9-key 8-bit universe up to MaxLen"),
     "C09": plan("model_checking", [mc_cluster, cluster_tv("restore", 4, 16)], RULE_CLUSTER),
     "C10": plan("model_checking", [mc_cluster, cluster_tv("window", 6, 16), cluster_tv("replicas", 2, 6)], RULE_CLUSTER + "; window scenario: the gated store "
                 "holds db.Mutate of an insertion before the real write while other goroutines issue every kind of query for old and in-flight "
